@@ -80,7 +80,8 @@ func builtinDateToJSON(call FunctionCall) Value {
 	obj := call.thisObject()
 	value := obj.DefaultValue(defaultValueHintNumber) // FIXME object.primitiveNumberValue
 	// FIXME fv.isFinite
-	if fv := value.float64(); math.IsNaN(fv) || math.IsInf(fv, 0) {
+	// 15.9.5.44 step 3: only a Number that is not finite gives null.
+	if fv := value.float64(); value.IsNumber() && (math.IsNaN(fv) || math.IsInf(fv, 0)) {
 		return nullValue
 	}
 
